@@ -874,6 +874,15 @@ fn with_base(a: &FArg, nb: u64, p: Option<usize>) -> Res {
         (3, 9) => wb_mode!(3, 9, a, p),
         (9, 3) => wb_mode!(9, 3, a, p),
         (27, 3) => wb_mode!(27, 3, a, p),
+        // ... and bases near the top of the Word range: the powers of the smaller base leave the Word before they reach the larger
+        #[cfg(not(force_bits = "32"))]
+        (9223372036854775809, 2) => wb_mode!(9223372036854775809, 2, a, p),
+        #[cfg(not(force_bits = "32"))]
+        (2, 9223372036854775809) => wb_mode!(2, 9223372036854775809, a, p),
+        #[cfg(not(force_bits = "32"))]
+        (18446744073709551615, 3) => wb_mode!(18446744073709551615, 3, a, p),
+        #[cfg(not(force_bits = "32"))]
+        (4294967297, 4294967296) => wb_mode!(4294967297, 4294967296, a, p),
         _ => Err(format!("bad-arg base-pair {} {}", a.base, nb)),
     }
 }
